@@ -493,7 +493,37 @@ func osVersionOrder() {
 			}
 		}
 	}
-	if run.Get("os_version_pairs") < 50 {
+	// the exact os.version the host asked for beats every other revision of its build, and a build-only entry
+	for _, hv := range []string{"10.0.17763.2114", "10.0.17763.1", "10.0.20348.1"} {
+		h := P{OS: "windows", Architecture: "amd64", OSVersion: hv}
+		cmp := platform.NewCompare(h)
+		exact := P{OS: "windows", Architecture: "amd64", OSVersion: hv}
+		others := []string{build3(hv), build3(hv) + ".0", build3(hv) + ".9999", build3(hv) + ".3"}
+		for _, ov := range others {
+			if ov == hv {
+				continue
+			}
+			o := P{OS: "windows", Architecture: "amd64", OSVersion: ov}
+			if !oracleRunnable(h, o) || !platform.Compatible(h, o) {
+				continue
+			}
+			run.Count("os_version_exact_pairs", 1)
+			if !cmp.Better(exact, o) || cmp.Better(o, exact) {
+				run.Violation("order/exact-os-version-not-preferred", fmt.Sprintf("request %s: the entry with exactly that os.version is not ranked above %s (Better(exact,other)=%t, Better(other,exact)=%t)", ps(&h), ov, cmp.Better(exact, o), cmp.Better(o, exact)), nil)
+			}
+			for _, l := range [][]*P{{&exact, &o}, {&o, &exact}} {
+				d, err := descriptor.DescriptorListSearch(mkDescs(l), descriptor.MatchOpt{Platform: &h})
+				if err != nil || d.Platform == nil || d.Platform.OSVersion != hv {
+					got := "nothing"
+					if err == nil && d.Platform != nil {
+						got = d.Platform.OSVersion
+					}
+					run.Violation("search/exact-os-version-passed-over", fmt.Sprintf("request %s list %s: chose %s although the exact os.version is listed", ps(&h), listStr(l), got), nil)
+				}
+			}
+		}
+	}
+	if run.Get("os_version_pairs") < 50 || run.Get("os_version_exact_pairs") < 6 {
 		run.Inconclusive("too few os.version pairs were comparable")
 	}
 }
